@@ -27,6 +27,7 @@ func c05(c *Ctx) {
 	r.Decides("IsMatchable is false for an allocate-once reservation that already has a pod; a pod is matched only if reservations are ignored for it or MatchOwners(pod) holds; default-mode pre-allocation requires MatchOwners")
 	r.Decides("UpdateReservation/UpdatePod re-derive every object-derived field (owner matchers, parse error, resource names, ...) on every path, so nothing of the previous version of the object survives an update")
 	r.Decides("whenever Allocatable, Allocated or Reserved of a ReservationInfo is assigned, the pre-calculated figures (Available, AllocatedResource, ...) are recomputed or copied before the function returns")
+	r.Decides("a per-node entry of a two-level index is dropped only when its inner map is empty (never on a count taken before the uid was removed), so no live reservation disappears from the index")
 	r.Decides("the cache maps are accessed only under cache.lock")
 	r.Declines("the quantity comparison itself and the sums over histories")
 
@@ -37,6 +38,7 @@ func c05(c *Ctx) {
 	c05match(c)
 	c05refresh(c)
 	c05derived(c)
+	c05prune(c)
 
 	r.Rule("LOCK: reservationCache.{reservationInfos,reservationsOnNode,matchableOnNode,allocatedOnNode,preAllocatablePodsOnNode} are read under lock and written under the write lock")
 	c.RunLock("LOCK", LockCfg{Pkg: resvPkg, Type: "reservationCache", Mutex: "lock",
@@ -647,4 +649,54 @@ func c05derived(c *Ctx) {
 		_, _ = last, base
 	}
 	r.Floor("TYPESTATE", "stores to the inputs of the pre-calculated figures", n, 6)
+}
+
+// c05prune: dropping the per-node entry of a two-level index.
+func c05prune(c *Ctx) {
+	r := c.R
+	r.Rule("PATH(prune): in package reservation every delete(cache.<index>, node) on a two-level index (reservationsOnNode, matchableOnNode, allocatedOnNode, preAllocatablePodsOnNode) is dominated by len(<index>[node]) == 0 (or <= 0) on the same inner map; a test such as len <= 1 taken before the uid was removed drops live entries when the uid was not in the map")
+	idx := map[string]bool{"reservationsOnNode": true, "matchableOnNode": true, "allocatedOnNode": true, "preAllocatablePodsOnNode": true}
+	n := 0
+	for _, fn := range c.PkgFuncs(resvPkg) {
+		k := 0
+		for _, cl := range an.Calls(fn, false) {
+			call, ok := cl.(*ssa.Call)
+			if !ok || !an.IsBuiltinCall(call, "delete") {
+				continue
+			}
+			m := call.Call.Args[0]
+			_, f, _, isF := an.FieldOf(mapField(m))
+			if !isF || !idx[f] {
+				continue
+			}
+			n++
+			k++
+			empty := false
+			for _, g := range an.Guards(call) {
+				rel, isRel := an.RelOf(g)
+				if !isRel {
+					continue
+				}
+				lc, isLen := rel.X.(*ssa.Call)
+				kc, isC := constIntOf(rel.Y)
+				if !isLen || !isC || !an.IsBuiltinCall(lc, "len") {
+					continue
+				}
+				// the inner map of the same index (looked up from the same field, possibly into a local)
+				inner := false
+				for x := range backwardAll(lc.Call.Args[0]) {
+					if lk, ok := x.(*ssa.Lookup); ok {
+						if _, f2, _, ok := an.FieldOf(mapField(lk.X)); ok && f2 == f {
+							inner = true
+						}
+					}
+				}
+				if inner && ((rel.Op == token.EQL && kc == 0) || (rel.Op == token.LEQ && kc == 0) || (rel.Op == token.LSS && kc == 1)) {
+					empty = true
+				}
+			}
+			r.Check(empty, "PATH", sprintf("%s/prune:%s#%d", fkey(fn), f, k), c.InstrPos(call), "the node entry is dropped only when its inner map is empty", "the per-node entry of "+f+" is dropped without a dominating test that its inner map is empty: reservations still listed under the node vanish from the index")
+		}
+	}
+	r.Floor("PATH", "per-node entry drops", n, 10)
 }
